@@ -434,122 +434,128 @@ Proof.
   intros N d x succ. apply sort_blocks_in. apply minimal_blocks_in. apply group_blocks_in.
 Qed.
 
-Inductive node_step (N : net) (cfg : config) (opt : bool) (d : sd) (x : nat) (next : list nat)
-  : sd -> result -> list nat -> Prop :=
-| ns_skip : n_exp (get d x) = true -> node_step N cfg opt d x next d RUnit next
+(* `vis`: the nodes the call has dealt with; an expanded node met for the first time hands on its successors *)
+Inductive node_step (N : net) (cfg : config) (opt : bool) (d : sd) (x : nat) (next vis : list nat)
+  : sd -> result -> list nat -> list nat -> Prop :=
+| ns_skip : n_exp (get d x) = true -> mem_nat x vis = true -> node_step N cfg opt d x next vis d RUnit next vis
+| ns_hand : n_exp (get d x) = true -> mem_nat x vis = false ->
+    node_step N cfg opt d x next vis d RUnit (union_nat next (successors d x)) (x :: vis)
 | ns_stop : forall r, n_exp (get d x) = false -> r <> RUnit -> r <> RFuel ->
-    node_step N cfg opt d x next d r next
+    node_step N cfg opt d x next vis d r next (x :: vis)
 | ns_ff : n_exp (get d x) = false -> opt = true -> sources_in_b N (n_space (get d x)) <> [] ->
-    node_step N cfg opt d x next (ff_step N d x) RUnit (union_nat next (ff_kids N d x))
+    node_step N cfg opt d x next vis (ff_step N d x) RUnit (union_nat next (ff_kids N d x)) (x :: vis)
 | ns_raise : forall d1 r, n_exp (get d x) = false -> expand_one N cfg d x = (d1, r) ->
-    r <> RUnit -> r <> RFuel -> node_step N cfg opt d x next d1 r next
+    r <> RUnit -> r <> RFuel -> node_step N cfg opt d x next vis d1 r next (x :: vis)
 | ns_norm : forall d1 ns (b : bool), n_exp (get d x) = false -> expand_one N cfg d x = (d1, RUnit) ->
     (forall s, In s ns -> In s (successors d1 x)) ->
-    node_step N cfg opt d x next (if b then set_empty_seeds d1 x else d1) RUnit (union_nat next ns).
+    node_step N cfg opt d x next vis (if b then set_empty_seeds d1 x else d1) RUnit (union_nat next ns) (x :: vis).
 
-Lemma block_level_cons : forall N cfg maa opt sz d x cur next tape,
-  exists d' r next' tape', node_step N cfg opt d x next d' r next' /\
-    block_level N cfg maa opt sz d (x :: cur) next tape =
+Lemma block_level_cons : forall N cfg maa opt sz d x cur next tape vis,
+  exists d' r next' tape' vis', node_step N cfg opt d x next vis d' r next' vis' /\
+    block_level N cfg maa opt sz d (x :: cur) next tape vis =
     match r with
-    | RUnit => block_level N cfg maa opt sz d' cur next' tape'
-    | _ => (d', r, next', tape')
+    | RUnit => block_level N cfg maa opt sz d' cur next' tape' vis'
+    | _ => (d', r, next', tape', vis')
     end.
 Proof.
-  intros N cfg maa opt sz d x cur next tape. cbn [block_level].
+  intros N cfg maa opt sz d x cur next tape vis. cbn [block_level].
   destruct (n_exp (get d x)) eqn:Ex.
-  { exists d, RUnit, next, tape. split; [apply ns_skip; exact Ex|reflexivity]. }
+  { destruct (mem_nat x vis) eqn:Em.
+    - exists d, RUnit, next, tape, vis. split; [apply ns_skip; assumption|reflexivity].
+    - exists d, RUnit, (union_nat next (successors d x)), tape, (x :: vis).
+      split; [apply ns_hand; assumption|reflexivity]. }
   destruct (over_limit sz d).
-  { exists d, (RBool false), next, tape. split; [apply ns_stop; [exact Ex|discriminate|discriminate]|reflexivity]. }
+  { exists d, (RBool false), next, tape, (x :: vis). split; [apply ns_stop; [exact Ex|discriminate|discriminate]|reflexivity]. }
   assert (Hnormal :
-    exists d' r next' tape', node_step N cfg opt d x next d' r next' /\
+    exists d' r next' tape' vis', node_step N cfg opt d x next vis d' r next' vis' /\
       (let '(d1, r0, succ0) := node_successors N cfg d x in
        match r0 with
        | RUnit =>
            match sort_nat succ0 with
-           | [] => block_level N cfg maa opt sz d1 cur next tape
+           | [] => block_level N cfg maa opt sz d1 cur next tape (x :: vis)
            | [s] =>
-               if negb maa then block_level N cfg maa opt sz d1 cur (union_nat next [s]) tape
+               if negb maa then block_level N cfg maa opt sz d1 cur (union_nat next [s]) tape (x :: vis)
                else
                  let '(clean, tape1) :=
                    first_clean (sort_blocks (minimal_blocks (group_blocks N d1 x (sort_nat succ0)))) tape in
                  match clean with
-                 | Some ns => block_level N cfg maa opt sz (set_empty_seeds d1 x) cur (union_nat next ns) tape1
-                 | None => block_level N cfg maa opt sz d1 cur (union_nat next (sort_nat succ0)) tape1
+                 | Some ns => block_level N cfg maa opt sz (set_empty_seeds d1 x) cur (union_nat next ns) tape1 (x :: vis)
+                 | None => block_level N cfg maa opt sz d1 cur (union_nat next (sort_nat succ0)) tape1 (x :: vis)
                  end
            | _ :: _ :: _ =>
                if negb maa
                then block_level N cfg maa opt sz d1 cur
                       (union_nat next
                          match sort_blocks (minimal_blocks (group_blocks N d1 x (sort_nat succ0))) with
-                         | (_, ns) :: _ => ns | [] => [] end) tape
+                         | (_, ns) :: _ => ns | [] => [] end) tape (x :: vis)
                else
                  let '(clean, tape1) :=
                    first_clean (sort_blocks (minimal_blocks (group_blocks N d1 x (sort_nat succ0)))) tape in
                  match clean with
-                 | Some ns => block_level N cfg maa opt sz (set_empty_seeds d1 x) cur (union_nat next ns) tape1
-                 | None => block_level N cfg maa opt sz d1 cur (union_nat next (sort_nat succ0)) tape1
+                 | Some ns => block_level N cfg maa opt sz (set_empty_seeds d1 x) cur (union_nat next ns) tape1 (x :: vis)
+                 | None => block_level N cfg maa opt sz d1 cur (union_nat next (sort_nat succ0)) tape1 (x :: vis)
                  end
            end
-       | _ => (d1, r0, next, tape)
+       | _ => (d1, r0, next, tape, x :: vis)
        end) =
       match r with
-      | RUnit => block_level N cfg maa opt sz d' cur next' tape'
-      | _ => (d', r, next', tape')
+      | RUnit => block_level N cfg maa opt sz d' cur next' tape' vis'
+      | _ => (d', r, next', tape', vis')
       end).
   { unfold node_successors.
     pose proof (Termination.expand_one_result N cfg d x) as Hres.
     destruct (expand_one N cfg d x) as [d1 r0] eqn:Ee. simpl in Hres.
     destruct Hres as [Hres|Hres]; subst r0.
-    2:{ exists d1, (RRaised ErrMotifLimit), next, tape.
+    2:{ exists d1, (RRaised ErrMotifLimit), next, tape, (x :: vis).
         split; [eapply ns_raise; [exact Ex|exact Ee|discriminate|discriminate]|reflexivity]. }
     pose proof (chosen_blocks_in N d1 x (sort_nat (successors d1 x))) as Hblocks.
     assert (Hsort : forall ns, (forall s, In s ns -> In s (sort_nat (successors d1 x))) ->
                     forall s, In s ns -> In s (successors d1 x)).
     { intros ns H s Hs. apply sort_nat_In. apply H. exact Hs. }
     assert (Hclean : forall tp,
-      exists d' r next' tape', node_step N cfg opt d x next d' r next' /\
+      exists d' r next' tape' vis', node_step N cfg opt d x next vis d' r next' vis' /\
         (let '(clean, tape1) :=
            first_clean (sort_blocks (minimal_blocks (group_blocks N d1 x (sort_nat (successors d1 x))))) tp in
          match clean with
-         | Some ns => block_level N cfg maa opt sz (set_empty_seeds d1 x) cur (union_nat next ns) tape1
-         | None => block_level N cfg maa opt sz d1 cur (union_nat next (sort_nat (successors d1 x))) tape1
+         | Some ns => block_level N cfg maa opt sz (set_empty_seeds d1 x) cur (union_nat next ns) tape1 (x :: vis)
+         | None => block_level N cfg maa opt sz d1 cur (union_nat next (sort_nat (successors d1 x))) tape1 (x :: vis)
          end) =
         match r with
-        | RUnit => block_level N cfg maa opt sz d' cur next' tape'
-        | _ => (d', r, next', tape')
+        | RUnit => block_level N cfg maa opt sz d' cur next' tape' vis'
+        | _ => (d', r, next', tape', vis')
         end).
     { intro tp.
       destruct (first_clean (sort_blocks (minimal_blocks (group_blocks N d1 x (sort_nat (successors d1 x))))) tp)
         as [[ns|] tape1] eqn:Ef.
       - destruct (first_clean_in _ _ _ _ Ef) as [b Hb].
-        exists (set_empty_seeds d1 x), RUnit, (union_nat next ns), tape1. split; [|reflexivity].
-        apply (ns_norm N cfg opt d x next d1 ns true Ex Ee). apply Hsort. apply (Hblocks b ns Hb).
-      - exists d1, RUnit, (union_nat next (sort_nat (successors d1 x))), tape1. split; [|reflexivity].
-        apply (ns_norm N cfg opt d x next d1 _ false Ex Ee). apply Hsort. auto. }
+        exists (set_empty_seeds d1 x), RUnit, (union_nat next ns), tape1, (x :: vis). split; [|reflexivity].
+        apply (ns_norm N cfg opt d x next vis d1 ns true Ex Ee). apply Hsort. apply (Hblocks b ns Hb).
+      - exists d1, RUnit, (union_nat next (sort_nat (successors d1 x))), tape1, (x :: vis). split; [|reflexivity].
+        apply (ns_norm N cfg opt d x next vis d1 _ false Ex Ee). apply Hsort. auto. }
     destruct (sort_nat (successors d1 x)) as [|s [|s2 rest]] eqn:Esucc.
-    - exists d1, RUnit, (union_nat next []), tape. split.
-      + apply (ns_norm N cfg opt d x next d1 [] false Ex Ee). intros s [].
+    - exists d1, RUnit, (union_nat next []), tape, (x :: vis). split.
+      + apply (ns_norm N cfg opt d x next vis d1 [] false Ex Ee). intros s [].
       + rewrite union_nat_nil. reflexivity.
     - destruct maa; simpl negb; cbv iota; [apply Hclean|].
-      exists d1, RUnit, (union_nat next [s]), tape. split; [|reflexivity].
-      apply (ns_norm N cfg opt d x next d1 [s] false Ex Ee). apply Hsort. auto.
+      exists d1, RUnit, (union_nat next [s]), tape, (x :: vis). split; [|reflexivity].
+      apply (ns_norm N cfg opt d x next vis d1 [s] false Ex Ee). apply Hsort. auto.
     - destruct maa; simpl negb; cbv iota; [apply Hclean|].
       destruct (sort_blocks (minimal_blocks (group_blocks N d1 x (s :: s2 :: rest)))) as [|[b ns] rb] eqn:Eb.
-      + exists d1, RUnit, (union_nat next []), tape. split; [|reflexivity].
-        apply (ns_norm N cfg opt d x next d1 [] false Ex Ee). intros s0 [].
-      + exists d1, RUnit, (union_nat next ns), tape. split; [|reflexivity].
-        apply (ns_norm N cfg opt d x next d1 ns false Ex Ee). apply Hsort.
+      + exists d1, RUnit, (union_nat next []), tape, (x :: vis). split; [|reflexivity].
+        apply (ns_norm N cfg opt d x next vis d1 [] false Ex Ee). intros s0 [].
+      + exists d1, RUnit, (union_nat next ns), tape, (x :: vis). split; [|reflexivity].
+        apply (ns_norm N cfg opt d x next vis d1 ns false Ex Ee). apply Hsort.
         apply (Hblocks b ns). left. reflexivity. }
   destruct (sources_in_b N (n_space (get d x))) as [|w srcs] eqn:Es.
   { simpl negb. cbv iota. simpl andb. cbv iota. exact Hnormal. }
   destruct opt; simpl negb; simpl andb; cbv iota; [|exact Hnormal].
   destruct (Nat.ltb (max_motifs cfg) (size d + Nat.pow 2 (length (w :: srcs)))).
-  { exists d, (RRaised ErrMotifLimit), next, tape.
+  { exists d, (RRaised ErrMotifLimit), next, tape, (x :: vis).
     split; [apply ns_stop; [exact Ex|discriminate|discriminate]|reflexivity]. }
   destruct (match sz with Some k => Nat.ltb k (size d + Nat.pow 2 (length (w :: srcs))) | None => false end).
-  { exists d, (RBool false), next, tape.
+  { exists d, (RBool false), next, tape, (x :: vis).
     split; [apply ns_stop; [exact Ex|discriminate|discriminate]|reflexivity]. }
-  exists (ff_step N d x), RUnit, (union_nat next (ff_kids N d x)), tape. split.
+  exists (ff_step N d x), RUnit, (union_nat next (ff_kids N d x)), tape, (x :: vis). split.
   - apply ns_ff; [exact Ex|reflexivity|]. rewrite Es. discriminate.
   - unfold ff_step, ff_kids, ff_motifs. rewrite Es.
     pose proof (ensure_children_fst N (map (merge (n_space (get d x))) (source_valuations (nvars N) (w :: srcs))) d x [])
@@ -594,15 +600,43 @@ Section BlockTransfer.
   Hypothesis Q_ff : forall d x, opt = true -> Q d -> x < size d -> n_exp (get d x) = false ->
     sources_in_b N (n_space (get d x)) <> [] -> Q (ff_step N d x).
 
-  Lemma BT_node : forall d x next d' r next',
-    Q d -> x < size d -> ids_ok d next -> node_step N cfg opt d x next d' r next' ->
-    Q d' /\ extends d d' /\ ids_ok d' next' /\ r <> RFuel /\
-    (r = RUnit -> next' = next \/ (n_exp (get d x) = false /\ n_exp (get d' x) = true)).
+  (* every node the call has dealt with is expanded (as long as the call goes on) *)
+  Definition vis_ok (d : sd) (vis : list nat) : Prop := forall v, In v vis -> n_exp (get d v) = true.
+
+  Lemma extends_exp : forall d d' i, extends d d' -> n_exp (get d i) = true -> n_exp (get d' i) = true.
   Proof.
-    intros d x next d' r next' Hq Hx Hnext Hstep.
-    destruct Hstep as [Hex|r Hex Hr1 Hr2|Hex Hopt Hsrc|d1 r Hex Ee Hr1 Hr2|d1 ns b Hex Ee Hns].
+    intros d d' i He Hex. destruct (lt_dec i (size d)) as [Hi|Hi].
+    - destruct He as (_ & _ & H3 & _). apply H3; assumption.
+    - rewrite get_beyond in Hex by lia. discriminate Hex.
+  Qed.
+
+  Lemma vis_ok_extends : forall d d' vis, extends d d' -> vis_ok d vis -> vis_ok d' vis.
+  Proof. intros d d' vis He H v Hv. eapply extends_exp; [exact He|apply H; exact Hv]. Qed.
+
+  Lemma vis_ok_cons : forall d x vis, n_exp (get d x) = true -> vis_ok d vis -> vis_ok d (x :: vis).
+  Proof. intros d x vis Hx H v [Hv|Hv]; [subst v; exact Hx|apply H; exact Hv]. Qed.
+
+  Lemma vis_ok_unexp : forall d x vis, vis_ok d vis -> n_exp (get d x) = false -> mem_nat x vis = false.
+  Proof.
+    intros d x vis H Hex. destruct (mem_nat x vis) eqn:Em; [|reflexivity].
+    apply mem_nat_In in Em. rewrite (H x Em) in Hex. discriminate Hex.
+  Qed.
+
+  Lemma BT_node : forall d x next vis d' r next' vis',
+    Q d -> x < size d -> ids_ok d next -> vis_ok d vis -> node_step N cfg opt d x next vis d' r next' vis' ->
+    Q d' /\ extends d d' /\ ids_ok d' next' /\ r <> RFuel /\
+    (r = RUnit -> vis_ok d' vis' /\
+       ((next' = next /\ vis' = vis) \/ (mem_nat x vis = false /\ vis' = x :: vis))).
+  Proof.
+    intros d x next vis d' r next' vis' Hq Hx Hnext Hvis Hstep.
+    destruct Hstep as [Hex Hm|Hex Hm|r Hex Hr1 Hr2|Hex Hopt Hsrc|d1 r Hex Ee Hr1 Hr2|d1 ns b Hex Ee Hns].
     - split; [exact Hq|]. split; [apply extends_refl|]. split; [exact Hnext|].
-      split; [discriminate|]. intros _. left. reflexivity.
+      split; [discriminate|]. intros _. split; [exact Hvis|]. left. split; reflexivity.
+    - split; [exact Hq|]. split; [apply extends_refl|]. split.
+      + intros y Hy. apply union_nat_In in Hy. destruct Hy as [Hy|Hy]; [apply Hnext; exact Hy|].
+        eapply successors_valid; [apply Q_swf; exact Hq|exact Hy].
+      + split; [discriminate|]. intros _. split; [apply vis_ok_cons; assumption|].
+        right. split; [exact Hm|reflexivity].
     - split; [exact Hq|]. split; [apply extends_refl|]. split; [exact Hnext|].
       split; [exact Hr2|]. intro H. contradiction.
     - pose proof (ff_step_extends N d x) as He.
@@ -610,7 +644,9 @@ Section BlockTransfer.
       + intros y Hy. apply union_nat_In in Hy. destruct Hy as [Hy|Hy].
         * eapply extends_lt; [exact He|apply Hnext; exact Hy].
         * apply ff_kids_valid; [apply Q_swf; exact Hq|exact Hx|exact Hy].
-      + split; [discriminate|]. intros _. right. split; [exact Hex|apply n_exp_ff_step; exact Hx].
+      + split; [discriminate|]. intros _. split.
+        * apply vis_ok_cons; [apply n_exp_ff_step; exact Hx|eapply vis_ok_extends; eauto].
+        * right. split; [eapply vis_ok_unexp; eauto|reflexivity].
     - pose proof (Q_expand d x Hq Hx Hex) as Hq1. pose proof (expand_one_extends N cfg d x) as He.
       rewrite Ee in Hq1, He. simpl in Hq1, He.
       split; [exact Hq1|]. split; [exact He|]. split; [eapply ids_ok_extends; eauto|].
@@ -622,114 +658,112 @@ Section BlockTransfer.
       { intros y Hy. apply union_nat_In in Hy. destruct Hy as [Hy|Hy].
         - eapply extends_lt; [exact He|apply Hnext; exact Hy].
         - eapply successors_valid; [apply Q_swf; exact Hq1|apply Hns; exact Hy]. }
+      assert (Hv1 : vis_ok d1 (x :: vis)).
+      { apply vis_ok_cons; [exact Hexp|eapply vis_ok_extends; eauto]. }
+      assert (Hm : mem_nat x vis = false) by (eapply vis_ok_unexp; eauto).
       destruct b.
       + split; [apply (Q_seeds d x d1 Hq Hx Hex Ee)|].
         split; [eapply extends_trans; [exact He|apply set_empty_seeds_extends]|].
         split; [intros y Hy; rewrite size_set_empty_seeds; apply Hvalid; exact Hy|].
-        split; [discriminate|]. intros _. right. split; [exact Hex|].
-        rewrite n_exp_set_empty_seeds. exact Hexp.
+        split; [discriminate|]. intros _. split.
+        * eapply vis_ok_extends; [apply set_empty_seeds_extends|exact Hv1].
+        * right. split; [exact Hm|reflexivity].
       + split; [exact Hq1|]. split; [exact He|]. split; [exact Hvalid|].
-        split; [discriminate|]. intros _. right. split; assumption.
+        split; [discriminate|]. intros _. split; [exact Hv1|]. right. split; [exact Hm|reflexivity].
   Qed.
 
-  (* the number of expanded nodes among the first K ids *)
-  Definition nexp (K : nat) (d : sd) : nat :=
-    length (filter (fun i => n_exp (get d i)) (seq 0 K)).
+  (* the number of visited nodes among the first K ids *)
+  Definition nvis (K : nat) (vis : list nat) : nat :=
+    length (filter (fun i => mem_nat i vis) (seq 0 K)).
 
-  Lemma nexp_le : forall K d, nexp K d <= K.
+  Lemma nvis_le : forall K vis, nvis K vis <= K.
   Proof.
-    intros K d. unfold nexp.
-    pose proof (filter_length_bound nat (fun i => n_exp (get d i)) (seq 0 K)) as H.
+    intros K vis. unfold nvis.
+    pose proof (filter_length_bound nat (fun i => mem_nat i vis) (seq 0 K)) as H.
     rewrite seq_length in H. exact H.
   Qed.
 
-  Lemma extends_exp : forall d d' i, extends d d' -> n_exp (get d i) = true -> n_exp (get d' i) = true.
+  Lemma nvis_nil : forall K, nvis K [] = 0.
   Proof.
-    intros d d' i He Hex. destruct (lt_dec i (size d)) as [Hi|Hi].
-    - destruct He as (_ & _ & H3 & _). apply H3; assumption.
-    - rewrite get_beyond in Hex by lia. discriminate Hex.
+    intro K. unfold nvis. induction (seq 0 K) as [|a l IH]; [reflexivity|]. simpl. exact IH.
   Qed.
 
-  Lemma nexp_mono : forall K d d', extends d d' -> nexp K d <= nexp K d'.
+  Lemma nvis_strict : forall K vis x, x < K -> mem_nat x vis = false -> nvis K vis < nvis K (x :: vis).
   Proof.
-    intros K d d' He. unfold nexp. apply filter_length_mono.
-    intros i _ Hex. eapply extends_exp; eauto.
-  Qed.
-
-  Lemma nexp_strict : forall K d d' x, extends d d' -> x < K ->
-    n_exp (get d x) = false -> n_exp (get d' x) = true -> nexp K d < nexp K d'.
-  Proof.
-    intros K d d' x He Hx H0 H1. unfold nexp. apply (filter_length_strict nat _ _ _ x).
-    - intros i _ Hex. eapply extends_exp; eauto.
+    intros K vis x Hx Hm. unfold nvis. apply (filter_length_strict nat _ _ _ x).
+    - intros i _ Hi. apply mem_nat_In. right. apply mem_nat_In. exact Hi.
     - apply in_seq. lia.
-    - exact H0.
-    - exact H1.
+    - exact Hm.
+    - apply mem_nat_In. left. reflexivity.
   Qed.
 
-  Lemma BT_level : forall maa sz cur d next tape d1 r next1 tape1,
-    Q d -> ids_ok d cur -> ids_ok d next ->
-    block_level N cfg maa opt sz d cur next tape = (d1, r, next1, tape1) ->
+  (* a level either hands over the `next` it was given, or it has dealt with a node for the first time *)
+  Lemma BT_level : forall maa sz cur d next tape vis d1 r next1 tape1 vis1,
+    Q d -> ids_ok d cur -> ids_ok d next -> vis_ok d vis ->
+    block_level N cfg maa opt sz d cur next tape vis = (d1, r, next1, tape1, vis1) ->
     Q d1 /\ extends d d1 /\ ids_ok d1 next1 /\ r <> RFuel /\
-    (r = RUnit -> next1 = next \/ nexp (max_nodes N) d < nexp (max_nodes N) d1).
+    (r = RUnit -> vis_ok d1 vis1 /\ nvis (max_nodes N) vis <= nvis (max_nodes N) vis1 /\
+       (next1 = next \/ nvis (max_nodes N) vis < nvis (max_nodes N) vis1)).
   Proof.
-    intros maa sz cur. induction cur as [|x cur IH]; intros d next tape d1 r next1 tape1 Hq Hcur Hnext E.
-    - simpl in E. injection E as E1 E2 E3 E4. subst d1 r next1 tape1.
+    intros maa sz cur. induction cur as [|x cur IH]; intros d next tape vis d1 r next1 tape1 vis1 Hq Hcur Hnext Hvis E.
+    - simpl in E. injection E as E1 E2 E3 E4 E5. subst d1 r next1 tape1 vis1.
       split; [exact Hq|]. split; [apply extends_refl|]. split; [exact Hnext|].
-      split; [discriminate|]. intros _. left. reflexivity.
-    - destruct (block_level_cons N cfg maa opt sz d x cur next tape) as (d' & r' & next' & tape' & Hstep & Heq).
+      split; [discriminate|]. intros _. split; [exact Hvis|]. split; [lia|]. left. reflexivity.
+    - destruct (block_level_cons N cfg maa opt sz d x cur next tape vis)
+        as (d' & r' & next' & tape' & vis' & Hstep & Heq).
       rewrite Heq in E. clear Heq.
       assert (Hx : x < size d) by (apply Hcur; left; reflexivity).
-      destruct (BT_node d x next d' r' next' Hq Hx Hnext Hstep) as (Hq' & He' & Hn' & Hr' & Hprog).
-      assert (Hstop : r' <> RUnit -> (d', r', next', tape') = (d1, r, next1, tape1) ->
+      destruct (BT_node d x next vis d' r' next' vis' Hq Hx Hnext Hvis Hstep) as (Hq' & He' & Hn' & Hr' & Hprog).
+      assert (Hstop : r' <> RUnit -> (d', r', next', tape', vis') = (d1, r, next1, tape1, vis1) ->
                 Q d1 /\ extends d d1 /\ ids_ok d1 next1 /\ r <> RFuel /\
-                (r = RUnit -> next1 = next \/ nexp (max_nodes N) d < nexp (max_nodes N) d1)).
-      { intros Hne E0. injection E0 as E1 E2 E3 E4. subst d1 r next1 tape1.
+                (r = RUnit -> vis_ok d1 vis1 /\ nvis (max_nodes N) vis <= nvis (max_nodes N) vis1 /\
+                   (next1 = next \/ nvis (max_nodes N) vis < nvis (max_nodes N) vis1))).
+      { intros Hne E0. injection E0 as E1 E2 E3 E4 E5. subst d1 r next1 tape1 vis1.
         split; [exact Hq'|]. split; [exact He'|]. split; [exact Hn'|]. split; [exact Hr'|].
         intro H. contradiction. }
       destruct r'; try (apply Hstop; [discriminate|exact E]).
       assert (Hcur' : ids_ok d' cur).
       { eapply ids_ok_extends; [exact He'|]. intros y Hy. apply Hcur. right. exact Hy. }
-      destruct (IH d' next' tape' d1 r next1 tape1 Hq' Hcur' Hn' E) as (K1 & K2 & K3 & K4 & K5).
+      destruct (Hprog eq_refl) as (Hv' & Hcase).
+      destruct (IH d' next' tape' vis' d1 r next1 tape1 vis1 Hq' Hcur' Hn' Hv' E) as (K1 & K2 & K3 & K4 & K5).
       split; [exact K1|]. split; [eapply extends_trans; eauto|]. split; [exact K3|].
-      split; [exact K4|]. intro Hr.
-      pose proof (nexp_mono (max_nodes N) d d' He') as M1.
-      pose proof (nexp_mono (max_nodes N) d' d1 K2) as M2.
-      destruct (Hprog eq_refl) as [Hsame|[P0 P1]].
-      + subst next'. destruct (K5 Hr) as [H|H]; [left; exact H|right; lia].
-      + right.
-        assert (Hlt : nexp (max_nodes N) d < nexp (max_nodes N) d').
-        { apply (nexp_strict _ d d' x He'); try assumption.
-          pose proof (size_bound N d (Q_swf d Hq)). lia. }
-        lia.
+      split; [exact K4|]. intro Hr. destruct (K5 Hr) as (L1 & L2 & L3). split; [exact L1|].
+      destruct Hcase as [[Hsame Hvs]|[Hm Hvs]].
+      + subst next' vis'. split; [exact L2|exact L3].
+      + subst vis'.
+        assert (Hlt : nvis (max_nodes N) vis < nvis (max_nodes N) (x :: vis)).
+        { apply nvis_strict; [|exact Hm]. pose proof (size_bound N d (Q_swf d Hq)). lia. }
+        split; [lia|]. right. lia.
   Qed.
 
-  Lemma BT_loop : forall maa sz fuel d cur tape, Q d -> ids_ok d cur ->
-    Q (fst (block_loop fuel N cfg maa opt sz d cur tape)) /\
-    extends d (fst (block_loop fuel N cfg maa opt sz d cur tape)) /\
-    (max_nodes N - nexp (max_nodes N) d + 2 <= fuel ->
-     snd (block_loop fuel N cfg maa opt sz d cur tape) <> RFuel).
+  Lemma BT_loop : forall maa sz fuel d cur tape vis, Q d -> ids_ok d cur -> vis_ok d vis ->
+    Q (fst (block_loop fuel N cfg maa opt sz d cur tape vis)) /\
+    extends d (fst (block_loop fuel N cfg maa opt sz d cur tape vis)) /\
+    (max_nodes N - nvis (max_nodes N) vis + 2 <= fuel ->
+     snd (block_loop fuel N cfg maa opt sz d cur tape vis) <> RFuel).
   Proof.
-    intros maa sz fuel. induction fuel as [|f IH]; intros d cur tape Hq Hcur.
+    intros maa sz fuel. induction fuel as [|f IH]; intros d cur tape vis Hq Hcur Hvis.
     - simpl. split; [exact Hq|]. split; [apply extends_refl|]. intro H. lia.
     - cbn [block_loop]. destruct cur as [|c cur'].
       { simpl. split; [exact Hq|]. split; [apply extends_refl|]. intros _. discriminate. }
       remember (c :: cur') as cur eqn:Ecur.
-      destruct (block_level N cfg maa opt sz d (sort_nat cur) [] tape) as [[[d1 r] next1] tape1] eqn:E.
+      destruct (block_level N cfg maa opt sz d (sort_nat cur) [] tape vis) as [[[[d1 r] next1] tape1] vis1] eqn:E.
       assert (Hs : ids_ok d (sort_nat cur)).
       { intros y Hy. apply Hcur. apply sort_nat_In. exact Hy. }
       assert (Hnil : ids_ok d []) by (intros y []).
-      destruct (BT_level maa sz (sort_nat cur) d [] tape d1 r next1 tape1 Hq Hs Hnil E)
+      destruct (BT_level maa sz (sort_nat cur) d [] tape vis d1 r next1 tape1 vis1 Hq Hs Hnil Hvis E)
         as (K1 & K2 & K3 & K4 & K5).
       assert (Hstop : r <> RUnit ->
                 Q (fst (d1, r)) /\ extends d (fst (d1, r)) /\
-                (max_nodes N - nexp (max_nodes N) d + 2 <= S f -> snd (d1, r) <> RFuel)).
+                (max_nodes N - nvis (max_nodes N) vis + 2 <= S f -> snd (d1, r) <> RFuel)).
       { intros _. simpl. split; [exact K1|]. split; [exact K2|]. intros _. exact K4. }
       destruct r; try (apply Hstop; discriminate).
-      destruct (IH d1 next1 tape1 K1 K3) as (J1 & J2 & J3).
+      destruct (K5 eq_refl) as (L1 & L2 & L3).
+      destruct (IH d1 next1 tape1 vis1 K1 K3 L1) as (J1 & J2 & J3).
       split; [exact J1|]. split; [eapply extends_trans; eauto|].
-      intro Hfuel. destruct (K5 eq_refl) as [Hsame|Hlt].
+      intro Hfuel. destruct L3 as [Hsame|Hlt].
       + subst next1. destruct f as [|f']; [lia|]. simpl. discriminate.
-      + apply J3. pose proof (nexp_le (max_nodes N) d1). lia.
+      + apply J3. pose proof (nvis_le (max_nodes N) vis1). lia.
   Qed.
 
   Theorem BT_block : forall fuel d maa sz tape, Q d ->
@@ -740,7 +774,8 @@ Section BlockTransfer.
     intros fuel d maa sz tape Hq. unfold expand_block.
     assert (H0 : ids_ok d [0]).
     { intros y [Hy|[]]. subst y. apply (swf_size N d (Q_swf d Hq)). }
-    destruct (BT_loop maa sz fuel d [0] tape Hq H0) as (J1 & J2 & J3).
+    assert (Hv : vis_ok d []) by (intros v []).
+    destruct (BT_loop maa sz fuel d [0] tape [] Hq H0 Hv) as (J1 & J2 & J3).
     split; [exact J1|]. split; [exact J2|]. intro Hf. apply J3. lia.
   Qed.
 End BlockTransfer.
@@ -801,8 +836,9 @@ Theorem expand_block_extends : forall fuel N cfg d maa opt sz tape, SWF N d ->
   extends d (fst (expand_block fuel N cfg d maa opt sz tape)).
 Proof. intros fuel N cfg d maa opt sz tape H. apply (block_SWF_all fuel N cfg d maa opt sz tape H). Qed.
 
-(* every level that hands over a non-empty next level expands a node that was not expanded
-   before, and a well-formed diagram has at most max_nodes N nodes *)
+(* every level that hands over a non-empty next level deals with a node (expands it, or hands on the
+   successors of an already expanded one) that the call had not visited before; every visited node is
+   expanded, and a well-formed diagram has at most max_nodes N nodes: the old bound still holds *)
 Theorem expand_block_terminates : forall fuel N cfg d maa opt sz tape, SWF N d ->
   max_nodes N + 2 <= fuel -> snd (expand_block fuel N cfg d maa opt sz tape) <> RFuel.
 Proof. intros fuel N cfg d maa opt sz tape H. apply (block_SWF_all fuel N cfg d maa opt sz tape H). Qed.
